@@ -122,6 +122,22 @@ class Location(Case):
                         if r is not None:
                             v["rmax"] = r
                         yield v
+        if self.params["range_max"] and self.params["lens"] == "same":
+            # range_max exactly at, and one float below, the real geodesic length of a hop (the distance is
+            # uninterpreted in the proof; these inputs make the boundary of the hop clause replayable)
+            import math
+
+            from pyvc import libmodels
+
+            tracks = [[(0, 0), (10, 20)], [(0, 80), (0, 81)], [(10, 20), (10, 20.5), (0, 0)], [(0, 0), (1, 0), (1, 1)], [(-179, 10), (179, 10)], [(0, 88), (90, 88), (0, 80)]]
+            for tr in tracks:
+                for h in range(1, len(tr)):
+                    d = libmodels.concrete_geod(tr[h - 1][1], tr[h - 1][0], tr[h][1], tr[h][0])
+                    for r in (d, math.nextafter(d, 0.0), math.nextafter(d, math.inf)):
+                        v = {"n": len(tr), "lon": [p[0] for p in tr], "lat": [p[1] for p in tr], "rmax": r, "keep": 1}
+                        if self.params["bbox"] == "given":
+                            v.update(dict(zip(("minx", "miny", "maxx", "maxy"), (-180, -90, 180, 90))))
+                        yield v
 
 
 def cases():
